@@ -66,6 +66,9 @@ class ProcEnv:
                 from stabilize.queue.dedup import get_deduplicator
 
                 get_deduplicator(expected_items=dedup_items)
+        from harness.engine import install_kill_shim
+
+        install_kill_shim()   # engine connections can die at a chosen commit (see kill_after); inert until armed
         self.store = SqliteWorkflowStore(self.url, create_tables=True)
         self.queue = SqliteQueue(self.url, lock_duration=timedelta(hours=1), max_attempts=qmax)
         self.queue._create_table()
@@ -111,6 +114,41 @@ class ProcEnv:
         """what QueueProcessor.process_one does after poll_one on the success path"""
         self.processor._handle_message(m)
         self.queue.ack(m)
+
+    def kill_after(self, m, k: int) -> tuple[str, int]:
+        """process_one's success path on `m`, but the worker process dies when `k` durable commits of this delivery have
+        completed (the (k+1)-th commit raises instead of committing); then the process is restarted on the same file.
+        Returns ("killed" | "completed", commits completed)."""
+        from harness.engine import Kill, _KillState
+
+        _KillState.count, _KillState.dead, _KillState.armed = 0, False, k
+        outcome = "completed"
+        try:
+            self.processor._handle_message(m)
+            self.queue.ack(m)
+        except Kill:
+            outcome = "killed"
+        finally:
+            n = _KillState.count
+            _KillState.armed, _KillState.dead = None, False
+        if outcome == "killed":
+            self.restart()
+        return outcome, n
+
+    def restart(self) -> None:
+        """the worker process is gone: its connection (with whatever transaction was open) is closed, volatile state
+        (bloom filter, executing-task registry) is lost, store/queue/processor objects are rebuilt from the file"""
+        from stabilize import RunTaskHandler, SqliteQueue, SqliteWorkflowStore
+        from stabilize.persistence.connection import ConnectionManager
+        from stabilize.queue.dedup import get_deduplicator, reset_deduplicator
+
+        ConnectionManager().close_sqlite_connection(self.url)
+        RunTaskHandler._executing_tasks.clear()
+        reset_deduplicator()
+        get_deduplicator(expected_items=5000)
+        self.store = SqliteWorkflowStore(self.url, create_tables=True)
+        self.queue = SqliteQueue(self.url, lock_duration=timedelta(hours=1), max_attempts=self.qmax)
+        self.processor = self.new_processor()
 
     def drain(self, max_messages: int = 10_000) -> int:
         """FIFO drain through the real process_one until nothing is deliverable."""
